@@ -224,6 +224,33 @@ Theorem C06_dispatch_prop_is_the_checker : forall rowf vs ve vis vie folds g h v
 Proof. exact judge_prop. Qed.
 Print Assumptions C06_dispatch_prop_is_the_checker.
 
+(* ---------- histories of calls ---------- *)
+(* the model has no state: the answer to a call (either exported function, any arguments, valid or not) is the same after ANY
+   sequence of earlier calls and before any later ones — the property quantifies over every history, and this is why the harness
+   may judge every step of a call sequence exactly like a standalone call *)
+Theorem C06_model_answers_do_not_depend_on_history : forall m_tan m_cos m_log (before before' after after' : list lstep) (x : lstep),
+  nth_error (history_answers m_tan m_cos m_log (before ++ x :: after)) (List.length before) =
+  Some (step_answer m_tan m_cos m_log x) /\
+  nth_error (history_answers m_tan m_cos m_log (before ++ x :: after)) (List.length before) =
+  nth_error (history_answers m_tan m_cos m_log (before' ++ x :: after')) (List.length before').
+Proof. exact history_answers_independent. Qed.
+Print Assumptions C06_model_answers_do_not_depend_on_history.
+(* the dispatcher's verdict on a step of a LineHistory case is the standalone verdict d_line of that step, whatever precedes it,
+   and the case passes exactly when every step passes *)
+Theorem C06_step_verdict_does_not_depend_on_history : forall oracle pre opre st o, List.length pre = List.length opre ->
+  nth_error (step_verdicts oracle (pre ++ [st]) (opre ++ [o])) (List.length pre) = Some (step_verdict oracle st o).
+Proof. exact step_verdict_independent. Qed.
+Print Assumptions C06_step_verdict_does_not_depend_on_history.
+Theorem C06_history_passes_iff_every_step_passes : forall vs,
+  existsb (is_class "bad-case") vs = false -> existsb (is_class "skipped") vs = false ->
+  v_prop (merge_verdicts vs) = forallb v_prop vs.
+Proof. exact merge_prop. Qed.
+Print Assumptions C06_history_passes_iff_every_step_passes.
+(* non-vacuity: valid call, invalid call (vZoom 36), the same valid call: answers [Ok l; Err; Ok l] with more than 10 IDs *)
+Example C06_history_nonvacuous : exists l, (10 < List.length l)%nat /\
+  history_answers eq_tan eq_cos eq_log [eq_step1; eq_step_bad; eq_step1] = [Ok l; Err; Ok l].
+Proof. exact eq_history. Qed.
+
 (* ---------- non-vacuity ---------- *)
 (* an oracle satisfying every hypothesis of the chain theorem, with a run that goes through all four branches *)
 Definition ex_vox (p : Z) : eid := mk 4 3 p 2 0.
